@@ -271,12 +271,12 @@ var (
 
 	// A token of digits only is an integer in the *read-base* or a symbol, a
 	// decimal float needs the point.
-	decimalRegex     = regexp.MustCompile(`^[-+]?[0-9]+\.[0-9]*$`)
-	eFloatRegex      = regexp.MustCompile(`^[-+]?[0-9]+\.?[0-9]*e[-+]?[0-9]+?$`)
-	shortFloatRegex  = regexp.MustCompile(`^[-+]?[0-9]+\.?[0-9]*s[-+]?[0-9]+?$`)
-	singleFloatRegex = regexp.MustCompile(`^[-+]?[0-9]+\.?[0-9]*f[-+]?[0-9]+?$`)
-	doubleFloatRegex = regexp.MustCompile(`^[-+]?[0-9]+\.?[0-9]*d[-+]?[0-9]+?$`)
-	longFloatRegex   = regexp.MustCompile(`^[-+]?[0-9]+\.?[0-9]*l[-+]?[0-9]+?$`)
+	decimalRegex     = regexp.MustCompile(`^[-+]?([0-9]+\.[0-9]*|\.[0-9]+)$`)
+	eFloatRegex      = regexp.MustCompile(`^[-+]?([0-9]+\.?[0-9]*|\.[0-9]+)e[-+]?[0-9]+?$`)
+	shortFloatRegex  = regexp.MustCompile(`^[-+]?([0-9]+\.?[0-9]*|\.[0-9]+)s[-+]?[0-9]+?$`)
+	singleFloatRegex = regexp.MustCompile(`^[-+]?([0-9]+\.?[0-9]*|\.[0-9]+)f[-+]?[0-9]+?$`)
+	doubleFloatRegex = regexp.MustCompile(`^[-+]?([0-9]+\.?[0-9]*|\.[0-9]+)d[-+]?[0-9]+?$`)
+	longFloatRegex   = regexp.MustCompile(`^[-+]?([0-9]+\.?[0-9]*|\.[0-9]+)l[-+]?[0-9]+?$`)
 
 	intRxs = []*regexp.Regexp{
 		nil, nil,
